@@ -178,6 +178,43 @@ def tracker_operator(run, prog, cls, rule, prefix):
     return base
 
 
+def defaults_resolution(run, prog, cls, rule, prefix):
+    """A caller-supplied storage / imputer is used as given; the default is built only when the argument
+    is None (not when it is merely falsy: an empty storage has len() == 0)."""
+    from .algebra import arms
+    from .boolalg import holds
+    s = prog.summarise(cls, "__init__")
+    fq = f"{cls.name}.__init__"
+    roles, fields = role_fields(prog, cls)
+    _, ifn = prog.find_method(cls, "__init__")
+    params = {a.arg for a in ifn.args.args + ifn.args.kwonlyargs}
+    for role, pname in (("STORAGE", "storage"), ("IMPUTER", "imputer")):
+        if pname not in params or not fields.get(role):
+            continue
+        f = fields[role][0]
+        t = s.fields.get(f)
+        par = ("param", pname)
+        bad = None
+        n = 0
+        for facts, v in arms(t):
+            # a freshly constructed object is never None: such arms are infeasible
+            if any(g[0] == "cmp" and g[1] == "is" and g[3] == ("const", None) and g[2][0] == "new" for g in facts):
+                continue
+            n += 1
+            if v == par:
+                continue
+            if v[0] == "new" and "." in v[2]:
+                if not holds(facts, ("cmp", "is", par, ("const", None))):
+                    gtxt = " & ".join(ir.show_nl(g) for g in facts)
+                    bad = f"the default {v[2].rsplit('.', 1)[1]} replaces the {pname} argument under [{gtxt}], not only when it is None"
+            else:
+                bad = f"self.{f} becomes {ir.show_nl(v)[:100]}"
+        run.check(bad is None and n >= 2, rule, f"{prefix}.{pname}", f"{s.path}:{s.fn.lineno}", fq,
+                  f"{pname} default: {bad or 'is None test'}",
+                  f"a {pname} passed by the caller must be used as it is (even when it is still empty); {bad}",
+                  f"self.{f} = {pname} if {pname} is not None else <default>")
+
+
 def meanout_arg(r, events=()):
     """If r is the mean model output {l: sum(o.get(l, 0) for o in outs) / len(outs) for l in union of
     the outputs' keys}, return (outs, ''), else (None, reason). Works on the inlined helper as well as on
